@@ -39,7 +39,7 @@ KNOWN_CLASSES = {
     "F29n": ("e", "xml", {29, 37, 38, 42, 53}, {"DIFF"}),
     "F53": ("w", "xml", {29, 42, 53}, {"DIFF"}),
     "F52": ("c", "xml", HAS_TEXT, {"DIFF"}),
-    "F50": ("d", "json", SCALAR_ROOT, {"LOAD-EXC:SER1", "DIFF"}),
+    "F50": ("d", "json", SCALAR_ROOT, {"LOAD-EXC:SER1"}),        # the class text says: the document is rejected
 }
 
 
@@ -262,7 +262,7 @@ def run(ctx, vlib):
             w = kn[fid].get("case")
             wo = vlib.run_driver(impl, [w], jobs=1)[0] if w else None
             evaluations += 1
-            if w and not ok_answer(wo):
+            if w and wo == kn[fid].get("implementation"):      # exactly the recorded answer (a crash on the witness is not the known finding)
                 known_lines.append("%s: %s [witness: %s -> %s; %d more inputs of this class in this run]" % (fid, kn[fid]["what"], w, wo, len(hits)))
             elif w:
                 diffs.append(dict(driver="rt", case=w, implementation=wo, model=kn[fid].get("implementation"), judge="KNOWN-FINDING-CHANGED",
@@ -273,7 +273,7 @@ def run(ctx, vlib):
             continue
         wo = vlib.run_driver(impl, [k["case"]], jobs=1)[0]
         evaluations += 1
-        if not ok_answer(wo):
+        if wo == k.get("implementation"):
             known_lines.append("%s: %s [witness: %s -> %s]" % (fid, k["what"], k["case"], wo))
         else:
             diffs.append(dict(driver="rt", case=k["case"], implementation=wo, model=k.get("implementation"), judge="KNOWN-FINDING-CHANGED",
